@@ -15,10 +15,10 @@ vars == <<c, r>>
 
 Defects == {d \in SUBSET {"BL", "BR", "UNK", "BTW"} : ~({"UNK", "BTW"} \subseteq d)}
 LocUniverse == {x \in {Loc(f, l, s, d) : f \in Positions, l \in Positions, s \in {"+", "-"}, d \in Defects} : Dom_Loc(x)}
-\* all sets of 1..2 locations; for MaxParts = 3 also the triples over the defect-free part
-Plain == {x \in LocUniverse : x.defect \subseteq {"BL"}}
+\* all sets of 1..2 locations; for MaxParts = 3 also the triples of defect-free locations
 \* pairs over the positions PairPositions (all of them in the thorough tier)
 PairUniverse == {x \in LocUniverse : x.first \in PairPositions /\ x.last \in PairPositions}
+Plain == {x \in PairUniverse : x.defect = {}}
 LocSets == {{a} : a \in LocUniverse}
            \cup (IF MaxParts >= 2 THEN {{a, b} : a \in PairUniverse, b \in PairUniverse} ELSE {})
            \cup (IF MaxParts >= 3 THEN {{a, b, d} : a \in Plain, b \in Plain, d \in Plain} ELSE {})
